@@ -13,6 +13,7 @@ fn main() {
     let family = args[1].clone();
     if family == "untrusted-worker" { fam::untrusted::worker(&args[2], &args[3], args[4].parse().unwrap_or(0)); return; }
     if family == "debugload" { fam::untrusted::debug_load(&args[2]); return; }
+    if family == "qdebug" { install_panic_hook(); fam::query::debug(&args[2]); return; }
     if family == "qlrefusals" { install_panic_hook(); fam::stamql::refusal_histogram(1, 3000); return; }
     let mut opts = Opts {
         tier: std::env::var("VERIF_TIER").unwrap_or_else(|_| "quick".into()),
